@@ -496,6 +496,10 @@ def gen_scenario(root, profile=None):
     if r2.chance(p["p_shuffle_keys"]) and p["world"] != "sim":
         script["shuffle_keys"] = True  # the script lists the entries of a report in varying order
     script["level_noise"] = r2.choice([0.4, 0.4, 0.15, 0.05])
+    if script.get("rejects") and r2.chance(0.5):
+        script["rejects"]["kinds"] = list(script["rejects"]["kinds"]) + r2.sample(["nonstr_key_np", "nonstr_key_tuple"], r2.randint(1, 2))
+    if kind == "rea" and r2.chance(0.5):
+        sched["mode_via_scheduler"] = True  # the searcher learns the mode from its scheduler only (as the REA baseline does)
     if kind == "sync_hb_bo":
         sched["searcher_data"] = "rungs" if sched.get("gp_model") == "gp_independent" else r2.choice(["rungs", "all"])
     if kind == "moasha" and r2.chance(p["p_sparse_moasha"]) and max_t >= 4:
@@ -503,6 +507,8 @@ def gen_scenario(root, profile=None):
         # maximum resource: a report can pass several rung levels at once, and a trial can complete between rung levels
         script["report_every"] = r2.choice([2, 3, 4])
         script["early_finish"] = {"p": 0.5, "at": r2.randint(2, max_t - 1)}
+        if r2.chance(0.5):
+            script["max_epochs"] = max_t + r2.randint(1, 3)  # the script trains beyond max_t: a report can skip over it
     if kind == "moasha" and sched.get("priority") == "nondominated" and r2.chance(0.35):
         sched["max_num_samples"] = r2.randint(1, 6)  # only the top k of the non-dominated sort get distinct priorities
     if kind == "pbt" and r2.chance(p["p_early_finish_pbt"]) and max_t >= 3:
@@ -600,7 +606,7 @@ def build_scheduler(scen):
         from syne_tune.optimizer.schedulers.searchers.regularized_evolution import RegularizedEvolution
 
         searcher = RegularizedEvolution(
-            space, metric=metric, mode=mode, population_size=s["population_size"],
+            space, metric=metric, **({} if s.get("mode_via_scheduler") else {"mode": mode}), population_size=s["population_size"],
             sample_size=s["sample_size"], random_seed=s["random_seed"],
             points_to_evaluate=copy.deepcopy(pte),
         )
